@@ -124,7 +124,8 @@ func parseHead(buf []byte, m *Msg) (int, PStatus) {
 		}
 		m.Method, m.Target, m.Proto = p[0], p[1], p[2]
 	} else {
-		if len(sl) < 12 || !strings.HasPrefix(sl, "HTTP/1.") || sl[8] != ' ' {
+		// HTTP-version = "HTTP/" DIGIT "." DIGIT (any version is syntactically a status line)
+		if len(sl) < 12 || !strings.HasPrefix(sl, "HTTP/") || sl[5] < '0' || sl[5] > '9' || sl[6] != '.' || sl[7] < '0' || sl[7] > '9' || sl[8] != ' ' {
 			m.Err = fmt.Sprintf("bad status line %q", Trunc(sl, 200))
 			return 0, PBad
 		}
